@@ -252,6 +252,26 @@ def nested_cases(draw):
     return out
 
 
+@st.composite
+def dp_large_layer_cases(draw):
+    """Dynamic programming where its layers of states get large (3 bins x 9-10 items, 4 bins x 7-8 items), with the objectives other than
+    min-max: a pruning of states that is only valid for one objective shows here (expensive: about half a second per case)."""
+    k = draw(st.sampled_from([3, 3, 3, 4]))
+    n = draw(st.integers(9, 10)) if k == 3 else draw(st.integers(7, 8))
+    values = S.splitmix(draw(st.integers(0, 2 ** 40)), n, 0, draw(st.sampled_from([60, 100, 200])))
+    spec = draw(st.sampled_from(["maxmin", "maxmin", "diff", f"klargest:{draw(st.integers(1, k))}", f"ksmallest:{draw(st.integers(1, k))}", "minmax"]))
+    case = {"alg": "dp", "values": values, "numbins": k, "pres": "list", "nseed": 0, "profile": "dp-large-layers", "opts": {"objective": spec}}
+    if draw(st.integers(0, 2)) == 0:
+        case["out"] = "Sums"
+    return case
+
+
+def valid_dp_large(case):
+    v = case.get("values")
+    return (case.get("alg") == "dp" and isinstance(v, list) and 1 <= len(v) <= 10 and all(isinstance(x, int) and x >= 0 for x in v)
+            and case.get("numbins") in (1, 2, 3, 4))
+
+
 def valid_deep(case):
     if not cases.valid_partition_case(dict(case, alg="greedy")):
         return False
@@ -271,7 +291,7 @@ def legs(tier):
             "for that objective")
     return [
         Leg("corpus", evaluate, "committed regression inputs", corpus=common.load_corpus(PROP), valid=valid, shards=4),
-        Leg("random", evaluate, rule, strategy=random_cases(), n_quick=8000, n_thorough=200000, valid=valid, floor=0.05),
+        Leg("random", evaluate, rule, strategy=random_cases(), n_quick=6000, n_thorough=200000, valid=valid, floor=0.05),
         Leg("exhaustive-small", evaluate,
             "all multisets of <=6 values from 0..6 and 1..7 x numbins 1..4 x every configuration incl. all 16 switch "
             "combinations (quick: 2% slice; ILP a quarter per thorough run); same non-triviality rule",
@@ -286,6 +306,11 @@ def legs(tier):
             "hypothesis: snp / rnp with exactly 4 bins and 9 items (the smallest shape with a nested recursion level) on values 1..200, 1..10^6 "
             "and near-equal large values; same oracle and non-triviality rule",
             strategy=nested_cases(), n_quick=1400, n_thorough=30000, valid=valid_deep, floor=0.1),
+        Leg("dp-large-layers", evaluate,
+            "hypothesis: dp with 3 bins x 9-10 items and 4 bins x 7-8 items (layers of more than a thousand states), objectives max-min, "
+            "difference, k-largest, k-smallest, min-max; same oracle and rule (about half a second per case: a handful in the quick tier, "
+            "thousands in the thorough tier)", strategy=dp_large_layer_cases(), n_quick=160, n_thorough=6000, valid=valid_dp_large, floor=0.2,
+            shards=16),
         Leg("two-way-large", evaluate,
             "hypothesis: two bins, 11-16 items (complete greedy <= 14), values 1..200 / 1..1000 / near-equal large / planted: beyond the "
             "exhaustive envelope, with ground truth from a subset-sum DP (bitset); ckk, snp, rnp, complete greedy, dp and cbldm (default bound); "
